@@ -7,6 +7,9 @@
 #include <cstdlib>
 #include <cstring>
 #include <new>
+#include <condition_variable>
+#include <mutex>
+#include <pthread.h>
 #include <string>
 #include <vector>
 
@@ -53,7 +56,8 @@ void vp_out(const void * p, uint64_t n, const char * tag) {
     printf("\n"); fflush(stdout);
 }
 void vp_note(const char * key, uint64_t v) { printf("NOTE %s %llu\n", key, static_cast<unsigned long long>(v)); fflush(stdout); }
-int  vp_probe(int) { return 0; }
+static int g_probe = 0;
+int  vp_probe(int on) { int o = g_probe; g_probe = on; return o; }
 uint64_t vp_flag(const char *) { return 0; }
 void vp_set_flag(const char *, uint64_t) {}
 uint64_t vp_live_heap(void) { return 0; }
@@ -62,6 +66,20 @@ void vp_free_now(void *) {}
 int  vp_mutex_held(const void *) { return 1; }
 int  vp_threads_alive(void) { return 0; }
 void vp_yield(void) {}
+static const void * g_ncv[64]; static uint64_t g_ncnt[64]; static int g_nn = 0;
+static pthread_mutex_t g_nmx = PTHREAD_MUTEX_INITIALIZER;
+static void note_notify(const void * cv) {
+    pthread_mutex_lock(&g_nmx);
+    int i = 0; for (; i < g_nn; i++) if (g_ncv[i] == cv) break;
+    if (i == g_nn && g_nn < 64) { g_ncv[g_nn] = cv; g_ncnt[g_nn] = 0; g_nn++; }
+    if (i < 64) g_ncnt[i]++;
+    pthread_mutex_unlock(&g_nmx);
+}
+uint64_t vp_notified(const void * cv) {
+    uint64_t r = 0; pthread_mutex_lock(&g_nmx);
+    for (int i = 0; i < g_nn; i++) if (g_ncv[i] == cv) r = g_ncnt[i];
+    pthread_mutex_unlock(&g_nmx); return r;
+}
 void vp_concolic_stop(void) {}
 uint64_t vp_concrete(uint64_t v) { return v; }
 void vp_watch(const void *, uint64_t, const char *) {}
@@ -85,6 +103,23 @@ void operator delete(void * p) noexcept { free(p); }
 void operator delete[](void * p) noexcept { free(p); }
 void operator delete(void * p, size_t) noexcept { free(p); }
 void operator delete[](void * p, size_t) noexcept { free(p); }
+
+// std::condition_variable out-of-line members, interposed: real pthread semantics plus probe mode
+// (a wait that would block throws VpBlocked) and notify counting.
+namespace std {
+void condition_variable::wait(unique_lock<mutex> & l) {
+    if (g_probe) throw VpBlocked();
+    pthread_cond_wait(reinterpret_cast<pthread_cond_t *>(native_handle()), l.mutex()->native_handle());
+}
+void condition_variable::notify_all() noexcept {
+    note_notify(this);
+    pthread_cond_broadcast(reinterpret_cast<pthread_cond_t *>(native_handle()));
+}
+void condition_variable::notify_one() noexcept {
+    note_notify(this);
+    pthread_cond_signal(reinterpret_cast<pthread_cond_t *>(native_handle()));
+}
+}
 
 extern "C" void VP_ENTRY();
 int main() {
